@@ -11,10 +11,12 @@ Search: every invocation is judged by the extracted *spec* (engine "cb-spec": Cb
 first implementation at or below the top, called with its own record)."""
 import os
 import random
+import time
 
 from .. import core
 from .. import readfiles as rf
 from .. import suitedumps
+from .. import hangaware
 
 NH = 7
 HNAMES = ["get_page", "read_caps", "reg_value", "sym_value", "sym_sizeof", "sym_offsetof", "num_value"]
@@ -65,7 +67,7 @@ def run_one(exe, run, ops):
     cf = run.casefile("cb-one.txt", [" ".join(ops)])
     model = core.run_model("cb", cf)
     spec = core.run_model("cb-spec", cf)
-    rc, out, err = core.run_impl(exe, [cf], timeout=60)
+    rc, out, err = core.run_impl(exe, [cf], timeout=8)
     impl = out.split("\n")[:-1]
     return model, spec, impl, rc, err
 
@@ -170,6 +172,8 @@ def judge_layers(run, exe, lcases, impl, crashes, base):
     nbad = 0
     for key, rows in sorted(groups.items()):
         ref = rows[0][1]
+        if any(a == "NOT-RUN" for _, a, _ in rows):
+            continue
         for line, ans, i in rows[1:]:
             if ans == ref and not ans.startswith(("CRASH", "NOT-RUN")):
                 continue
@@ -192,29 +196,42 @@ def judge_layers(run, exe, lcases, impl, crashes, base):
 
 
 def gen_cache_case(rng, nops):
-    """reads through the read cache interleaved with add_cb / del_cb of layers that override nothing"""
-    ops = ["C"]
+    """reads through the read cache interleaved with add_cb / del_cb of layers that override nothing or
+    override read_caps with another capability mask; memory exists only in some address spaces; failing
+    reads (multi-step walks that fail in their second step) are interleaved"""
+    ops = ["C", "B%x" % rng.choice([1, 2, 3, 3]), "V%x" % rng.choice([1, 2, 3, 3, 3])]
     pool = []
     depth = 0
+
+    def read():
+        if pool and rng.random() < 0.6:
+            a_as, a = rng.choice(pool)                # re-read a (probably cached) page
+            a = (a & ~0xff) + 8 * rng.randrange(31)
+            if rng.random() < 0.4:
+                a_as = 1 - a_as                       # the same address through the other space
+        else:
+            a_as = rng.randrange(2)
+            r = rng.random()
+            if r < 0.2:
+                a = rng.randrange(0x100) * 0x100 + 8 * rng.randrange(31)
+            elif r < 0.3:
+                a = 0xfffffffffffff000 + rng.randrange(0x10) * 0x100 + 8 * rng.randrange(31)
+            elif r < 0.5:
+                a = (rng.randrange(0x40) * 8 + 3) * 0x100 + 8 * rng.randrange(31)    # a region that fails
+            else:
+                a = 0x10000 + rng.randrange(0x40) * 0x100 + 8 * rng.randrange(31)
+        pool.append((a_as, a))
+        return "R%x:%x" % (a_as, a)
+
     for _ in range(nops):
         k = rng.random()
-        if k < 0.62 or not pool:
-            if pool and rng.random() < 0.6:
-                a_as, a = rng.choice(pool)                # re-read a (probably cached) page
-                a = (a & ~0xff) + 8 * rng.randrange(31)
-            else:
-                a_as = rng.randrange(3)
-                r = rng.random()
-                if r < 0.2:
-                    a = rng.randrange(0x100) * 0x100 + 8 * rng.randrange(31)
-                elif r < 0.3:
-                    a = 0xfffffffffffff000 + rng.randrange(0x10) * 0x100 + 8 * rng.randrange(31)
-                else:
-                    a = 0x10000 + rng.randrange(0x40) * 0x100 + 8 * rng.randrange(31)
-            pool.append((a_as, a))
-            ops.append("R%x:%x" % (a_as, a))
-        elif k < 0.84 and depth < 6:
+        if k < 0.6 or not pool:
+            ops.append(read())
+        elif k < 0.72 and depth < 6:
             ops.append("+")
+            depth += 1
+        elif k < 0.86 and depth < 6:
+            ops.append("+c%x" % rng.choice([1, 2, 3]))
             depth += 1
         elif depth:
             ops.append("-%d" % rng.randrange(depth))
@@ -231,7 +248,7 @@ def page_source_in_sync(run, exe):
             probes.append("Y %x:%x" % (s, a))
     cf = run.casefile("cb-probe.txt", probes)
     m = core.run_model("cb", cf)
-    rc, out, err = core.run_impl(exe, [cf], timeout=60)
+    rc, out, err = core.run_impl(exe, [cf], timeout=8)
     im = out.split("\n")[:-1]
     if m != im:
         d = [(p, a, b) for p, a, b in zip(probes, m, im) if a != b][:3]
@@ -254,16 +271,22 @@ def judge_cache(run, exe, ccases, model, impl, crashes, base):
     for j, c in enumerate(ccases):
         i = base + j
         ans = impl[i] if i < len(impl) else "NOT-RUN"
-        if i in crashes or ans.startswith(("CRASH", "NOT-RUN")) or verd[j] != "ok" or model[i] != ans:
+        if ans == "NOT-RUN":
+            continue
+        if i in crashes or ans.startswith("CRASH") or verd[j] != "ok" or model[i] != ans:
             bad.append(j)
+    t_report = time.time()
     for j in bad[:3]:
+        if time.time() - t_report > 40:
+            run.count("failing-cases-not-examined-for-lack-of-time")
+            break
         ops = ccases[j]
 
         def run1(cand):
             line = " ".join(["C"] + cand)
             cf = run.casefile("cb-one.txt", [line])
             m = core.run_model("cb", cf)
-            rc, out, err = core.run_impl(exe, [cf], timeout=60)
+            rc, out, err = core.run_impl(exe, [cf], timeout=8)
             im = out.split("\n")[:-1]
             v = core.run_model("cb-cachespec", run.casefile("cb-one-spec.txt", ["%s | %s" % (line, im[0] if im else "")]))
             return m, im, rc, err, v[0]
@@ -271,7 +294,7 @@ def judge_cache(run, exe, ccases, model, impl, crashes, base):
         def valid(cand):
             depth = 0
             for o in cand:
-                if o == "+":
+                if o[0] == "+":
                     depth += 1
                 elif o[0] == "-":
                     if int(o[1:]) >= depth:
@@ -287,17 +310,20 @@ def judge_cache(run, exe, ccases, model, impl, crashes, base):
         if not fails(ops[1:]):
             run.count("unreproducible-disagreement")
             continue
-        small = core.shrink_list(ops[1:], fails)
+        hang = (base + j) in crashes and hangaware.is_hang(crashes[base + j][0])
+        small = core.shrink_list(ops[1:], fails, max_tests=10 if hang else 400, budget_s=25)
         m, im, rc, err, v = run1(small)
         line = " ".join(["C"] + small)
         replay = {"engine": "cb", "ops": line, "model": m, "implementation": im, "impl_exit": rc,
                   "impl_stderr_tail": err[-1500:], "spec_verdict": v,
                   "how": "bin/check C17 --replay <this file> re-runs the history through harness/cb_drv.c"}
         if rc != 0:
-            run.violation("impl", "read cache and layers: sanitizer/crash (exit %s) on history: %s" % (rc, line),
+            run.violation("impl", "read cache and layers: %s (exit %s) on history: %s"
+                          % ("no answer within 5 s (the library spins)" if hangaware.is_hang(rc) else "sanitizer/crash",
+                             rc, line),
                           replay, found_input=True, signature="cb cache crash " + err[-300:])
         elif v != "ok":
-            run.violation("spec", "adding/deleting a layer that overrides nothing disturbs the read cache: %s; "
+            run.violation("spec", "layer operations disturb the reads through the context (read cache / read capabilities): %s; "
                           "history: %s" % (v, line), replay, found_input=True, signature="cb cache " + v[:40])
         else:
             run.violation("tie", "correspondence cb (CbCache.hrun vs ctx.c) broken on history: %s: model '%s' "
@@ -328,8 +354,20 @@ def compare(run, exe, cases, model, spec, impl, crashes):
         run.note_case(" ".join(ops), depth >= 2)
         if i < 3:
             run.sample({"ops": " ".join(ops), "impl": line})
+    nhang = 0
+    t_report = time.time()
+    bad = {i for i in bad if i < len(impl) and impl[i] != "NOT-RUN"}
     for i in sorted(bad | set(spec_bad) | set(crashes))[:5]:
+        if time.time() - t_report > 40:
+            run.count("failing-cases-not-examined-for-lack-of-time")
+            break
         ops = cases[i]
+        hang = i in crashes and hangaware.is_hang(crashes[i][0])
+        if hang:
+            nhang += 1
+            if nhang > 1:
+                run.count("further-hanging-cases-not-shrunk")
+                continue
         if ops[0] == "K":
             rc, err = crashes.get(i, (0, ""))
             replay = {"engine": "cb", "ops": "K", "implementation": impl[i] if i < len(impl) else None,
@@ -349,14 +387,16 @@ def compare(run, exe, cases, model, spec, impl, crashes):
         if not fails(ops):
             run.count("unreproducible-disagreement")
             continue
-        small = core.shrink_list(ops, fails)
+        # a hanging candidate costs the driver's 5 s alarm: a few steps only
+        small = core.shrink_list(ops, fails, max_tests=10 if hang else 400, budget_s=25)
         m, s, im, r, e = run_one(exe, run, small)
-        sv = explain(small, s[0], im[0]) if im else None
+        sv = explain(small, s[0], im[0]) if im and s else None
         replay = {"engine": "cb", "ops": " ".join(small), "model": m, "spec": s, "implementation": im,
                   "impl_exit": r, "impl_stderr_tail": e[-1500:], "spec_verdict": sv,
                   "how": "bin/check C17 --replay <this file> re-runs the ops through harness/cb_drv.c"}
         if r != 0:
-            kind = "stack overflow (unbounded recursion)" if "stack-overflow" in e else "sanitizer/crash"
+            kind = "stack overflow (unbounded recursion)" if "stack-overflow" in e else \
+                "no answer within 5 s (the library spins)" if hangaware.is_hang(r) else "sanitizer/crash"
             run.violation("impl", "callback layers: %s (exit %s) on ops: %s" % (kind, r, " ".join(small)),
                           replay, found_input=True, signature="cb crash " + e[-300:])
         elif sv:
@@ -427,7 +467,7 @@ def check(run):
     cf = run.casefile("cb-cases.txt", lines)
     model = core.run_model("cb", cf)
     spec = core.run_model("cb-spec", cf)
-    impl, crashes = core.run_impl_lines(exe, run.work, lines, timeout=300)
+    impl, crashes = hangaware.run_lines(exe, run.work, lines, timeout=60 if quick else 600, max_abnormal=8)
     if run.replay_path and lines:
         print("model:          " + model[0])
         print("spec:           " + spec[0])
